@@ -308,6 +308,37 @@ def accumulators(ctx, rule, modules, cls, spec, axioms=None):
     if not res:
         raise AnalysisError(f'{rule}: {cls}.register has no accepting path')
     dc, f2 = ctx.prog.resolve(cls, 'register')
+    # minimum / maximum are decided by cases of the entry state (an induction over the observations registered so far):
+    #   empty      the state initialize() leaves (count 0, extremum fields at their initial marker)   -> the extremum becomes the observation
+    #   non-empty  count >= 1 and the extremum is a number (not NaN)                                  -> strictly better: the observation, else unchanged
+    # and in both the extremum is a number afterwards, which is what makes "non-empty" cover every later state.
+    cF = next((e[1] for e in spec if e[0] == 'count'), None)
+    cases = None
+    ci_i, fn_i = prog.resolve(cls, 'initialize')
+    ext_fields = [e[1] for e in spec if e[0] in ('min', 'max')]
+    if cF is not None and fn_i is not None and ext_fields:
+        cases = []
+        s0 = an.instantiate(cls, inv)
+        an.cur = [(cls, cls, '<entry>')]
+        for (rs0, _r) in an.call_method(s0, cls, 'initialize', [], {}, None, free_params=True):
+            niv = rs0.iv(rs0.fld.get(cF)) if rs0.fld.get(cF) is not None else None
+            if niv is None or not (niv.is_point() and niv.lo == 0.0):
+                cases = None
+                break
+            e_old = dict(rs0.fld)
+            an.cur = [(cls, cls, '<entry>')]
+            cases.append(('empty', e_old, an.inline(rs0, cls, ci.name, fn, [], {}, None, free_params=True), dict(an.entry_params)))
+        if cases is not None:
+            s1 = an.instantiate(cls, inv)
+            feasible = s1.refine(s1.fld[cF], Itv(1.0, I.INF, False, True, False, True))
+            for F_ in ext_fields:
+                a_ = s1.fld.get(F_)
+                if a_ is not None:
+                    v_ = s1.iv(a_)
+                    s1.val[a_] = Itv(v_.lo, v_.hi, v_.lo_open, v_.hi_open, False, v_.isint, v_.empty)
+            n_old = dict(s1.fld)
+            an.cur = [(cls, cls, '<entry>')]
+            cases.append(('non-empty', n_old, an.inline(s1, cls, ci.name, fn, [], {}, None, free_params=True) if feasible else [], dict(an.entry_params)))
     for entry in spec:
         kind, F = entry[0], entry[1]
         when = entry[-1] if isinstance(entry[-1], str) and entry[-1].startswith('pos:') else None
@@ -347,6 +378,8 @@ def accumulators(ctx, rule, modules, cls, spec, axioms=None):
                         ok = bool(di) and di[0] == 'mul' and {di[1], di[2]} == {params.get(args[0]), params.get(args[1])}
                 if not ok:
                     bad.append(f'{F} becomes `{_show(rs, f1)}`')
+            elif cases is not None:
+                break
             else:
                 x = params.get(args[0])
                 prev = getattr(rs, 'prev_fld', {}).get(F, f0)
@@ -371,6 +404,40 @@ def accumulators(ctx, rule, modules, cls, spec, axioms=None):
                     good = o <= ({'>', '='} if kind == 'min' else {'<', '='})
                     if not good:
                         bad.append(f'{F} keeps its value although the observation may be {"smaller" if kind == "min" else "larger"} (possible orderings {sorted(o)})')
+        if kind in ('min', 'max') and cases is not None:
+            npaths = 0
+            for (label, c_old, c_res, c_params) in cases:
+                x = c_params.get(args[0])
+                for (rs, _ra) in c_res:
+                    ctx.examined()
+                    npaths += 1
+                    f0, f1 = c_old.get(F), rs.fld.get(F)
+                    if f0 is None or f1 is None or x is None:
+                        bad.append(f'{F} unknown')
+                        continue
+                    took = f1 == x or rs.rel.possible(f1, x) == {'='}
+                    if rs.iv(f1).nan and not took:
+                        bad.append(f'{F} can be NaN after an observation was registered ({label} statistic)')
+                        continue
+                    if label == 'empty':
+                        if not took:
+                            bad.append(f'after the first observation {F} is `{_show(rs, f1)}`, not the observation (the initial marker is not an identity element of {kind})')
+                    elif took:
+                        o = order(rs, x, f0)
+                        if not o <= ({'<', '='} if kind == 'min' else {'>', '='}):
+                            bad.append(f'{F} := observation although it is not {"smaller" if kind == "min" else "larger"} than the previous {F} (possible orderings {sorted(o)})')
+                    elif f1 == f0 or rs.rel.possible(f1, f0) == {'='}:
+                        o = order(rs, x, f1)
+                        if not o <= ({'>', '='} if kind == 'min' else {'<', '='}):
+                            bad.append(f'{F} keeps its value although the observation may be {"smaller" if kind == "min" else "larger"} (possible orderings {sorted(o)})')
+                    else:
+                        bad.append(f'{F} becomes `{_show(rs, f1)}`: neither the observation nor the previous {F}')
+            ok = not bad
+            ctx.ob(rule, f'{cls}.register:{F}', ok, sample=f'{cls}.register: {F} updated as {kind}({", ".join(args)}) by cases (empty / non-empty statistic) on {npaths} accepting paths: {ok}')
+            if not ok:
+                ctx.finding(rule, f'{cls}.register:{F}:{kind}', dc, f2,
+                            f'{F} is not maintained as {kind}({", ".join(args)}) of the registered observations: ' + '; '.join(sorted(set(bad))[:3]), where=f'{dc.name}.register')
+            continue
         ok = not bad
         ctx.ob(rule, f'{cls}.register:{F}', ok, sample=f'{cls}.register: {F} updated as {kind}({", ".join(args)}){" when " + when[4:] + " > 0" if when else ""} on all {len(res)} accepting paths: {ok}')
         if not ok:
